@@ -57,6 +57,7 @@ CORPUS_TEXTS = [
     "foo @ file:///abs/path/foo.zip", "foo @", "foo[", "foo>=", "foo ; python_version", "", " ", "foo @ https://h", "foo @ https:/h/a.zip",
     "foo @ HTTPS://Example.COM/A.zip", "foo @ https://h/a%20b.zip", "foo-", "-foo", "foo @ https://h/a.zip?x=1#subdirectory=s&egg=foo",
 ]
+# witnesses of the finding classes; the classes repaired in poetry-core since (f169cc2, ee3a18f, 99e1c95) stay as regressions
 CORPUS_FINDINGS = [
     (K_WHEEL, {"ctor": {"kind": "url", "name": "X1", "url": "https://example.com/foo-1.0-py3-none-any.whl", "directory": None, "extras": [], "marker": "",
                         "python": None, "py_first": False}}),
